@@ -3,7 +3,7 @@
    and of the one-class theorem (class_agree_gen). *)
 From Coq Require Import List String ZArith Bool Arith Lia.
 From AV Require Import Core.Json Core.Errors Core.Text Core.Util Small.Ordering Deser.Model Deser.Spec Deser.Unfold Deser.Loops
-  Schema.Json Schema.Unfold Schema.Build Schema.Proofs Schema.ConProofs Schema.ShapeProofs Schema.AgreeProofs Schema.ObjAgree.
+  Schema.Json Schema.Unfold Schema.Build Schema.Proofs Schema.ConProofs Schema.ShapeProofs Schema.AgreeProofs Schema.DepReqAgree Schema.ObjAgree.
 Import ListNotations.
 Open Scope string_scope.
 
@@ -28,7 +28,7 @@ Section Nest.
           | O => false
           | S m =>
               let cd := get_cls u c in
-              negb (refs (cname c)) && sorted_kept cd && match cd_depreq cd with [] => true | _ => false end
+              negb (refs (cname c)) && sorted_kept cd && wf_depreq cd
               && forallb (fun fd => no_fb fd && okt m (field_ty fd) && wf_con (field_ty fd)
                                     && con_mergeable u o refs m false (field_ty fd) && keys_ok u (field_ty fd)) (cd_fields cd)
           end
@@ -54,7 +54,7 @@ Section Nest.
   Lemma okt_TObj_S m c :
     okt (S m) (TObj c) =
     let cd := get_cls u c in
-    negb (refs (cname c)) && sorted_kept cd && match cd_depreq cd with [] => true | _ => false end
+    negb (refs (cname c)) && sorted_kept cd && wf_depreq cd
     && forallb (fun fd => no_fb fd && okt m (field_ty fd) && wf_con (field_ty fd)
                           && con_mergeable u o refs m false (field_ty fd) && keys_ok u (field_ty fd)) (cd_fields cd).
   Proof. reflexivity. Qed.
@@ -98,7 +98,7 @@ Section Nest.
     - destruct n as [|m]; [rewrite okt_TObj_O in Hf; discriminate|]. rewrite okt_TObj_S in Hf. cbv zeta in Hf.
       apply andb_true_iff in Hf. destruct Hf as [Hf Hfields]. apply andb_true_iff in Hf. destruct Hf as [Hf Hdep].
       apply andb_true_iff in Hf. destruct Hf as [Hrefs Hsorted].
-      assert (Hdep' : cd_depreq (get_cls u c) = []) by (destruct (cd_depreq (get_cls u c)); [reflexivity|discriminate]).
+      pose proof Hdep as Hdep'.
       rewrite spec_TObj_S. cbv zeta. destruct d; try discriminate.
       assert (Hnf : forall fd, In fd (cd_fields (get_cls u c)) -> forall x, dict_get (o_aliaser o (fd_alias fd)) l = Some x ->
                                sp m None (field_ty fd) x <> SFuel).
@@ -107,7 +107,7 @@ Section Nest.
       assert (Hnb : forallb no_fb (cd_fields (get_cls u c)) = true).
       { apply forallb_forall. intros fd Hin. rewrite forallb_forall in Hfields. specialize (Hfields fd Hin).
         repeat (apply andb_true_iff in Hfields; destruct Hfields as [Hfields ?]). assumption. }
-      destruct (spec_fields_gen u o m (get_cls u c) l (cd_fields (get_cls u c)) Hdep' Hfb Hnb Hnf) as [Hnone _].
+      destruct (spec_fields_gen u o m (get_cls u c) l (cd_fields (get_cls u c)) Hfb Hnb Hnf) as [Hnone _].
       rewrite Hnone. repeat match goal with |- context [if ?c then _ else _] => destruct c end; discriminate.
   Qed.
 
@@ -210,7 +210,7 @@ Section Nest.
       destruct n as [|m]; [rewrite okt_TObj_O in Hf; discriminate|]. rewrite okt_TObj_S in Hf. cbv zeta in Hf.
       apply andb_true_iff in Hf. destruct Hf as [Hf Hfields]. apply andb_true_iff in Hf. destruct Hf as [Hf Hdep].
       apply andb_true_iff in Hf. destruct Hf as [Hrefs Hsorted]. apply negb_true_iff in Hrefs.
-      assert (Hdep' : cd_depreq (get_cls u c) = []) by (destruct (cd_depreq (get_cls u c)); [reflexivity|discriminate]).
+      pose proof Hdep as Hdep'.
       assert (Hall : forall fd, In fd (cd_fields (get_cls u c)) ->
                 no_fb fd = true /\ okt m (field_ty fd) = true /\ wf_con (field_ty fd) = true
                 /\ con_mergeable u o refs m false (field_ty fd) = true /\ keys_ok u (field_ty fd) = true).
@@ -272,4 +272,23 @@ Example nest_ex :
   /\ nest_hyps nest_ex_univ nest_ex_opts (fun _ => false) 2 false (TObj 2) nest_ex_bad = true
   /\ jvalid false [] 0 (build nest_ex_univ nest_ex_opts (fun _ => false) 2 false (TObj 2)) nest_ex_good = true
   /\ jvalid false [] 0 (build nest_ex_univ nest_ex_opts (fun _ => false) 2 false (TObj 2)) nest_ex_bad = false.
+Proof. vm_compute. repeat split. Qed.
+
+(* with dependent_required under an aliaser: giving a discount code requires the customer's e-mail *)
+Definition dr_ex_univ : univ := mkU
+  [ mkCls KData [ mkF "name" "name" TStr true VNone false None no_fser;
+                  mkF "e_mail" "e_mail" (TUnion [TStr; TNone]) false VNone false None no_fser;
+                  mkF "discount" "discount" (TUnion [TStr; TNone]) false VNone false None no_fser ]
+          [("discount", ["e_mail"; "name"])] [] [] false ]
+  [].
+Definition dr_ex_opts : dopts := mkO false false false true (fun s => "p_" ++ s).
+Definition dr_ex_good : pyval := PDict [("p_name", PStr "a"); ("p_e_mail", PStr "m"); ("p_discount", PStr "d")].
+Definition dr_ex_bad : pyval := PDict [("p_name", PStr "a"); ("p_discount", PStr "d")].
+
+Example dr_ex :
+  nest_hyps dr_ex_univ dr_ex_opts (fun _ => false) 1 false (TObj 0) dr_ex_good = true
+  /\ nest_hyps dr_ex_univ dr_ex_opts (fun _ => false) 1 false (TObj 0) dr_ex_bad = true
+  /\ accepts (spec dr_ex_univ dr_ex_opts 2 None (TObj 0) dr_ex_good) = true
+  /\ accepts (spec dr_ex_univ dr_ex_opts 2 None (TObj 0) dr_ex_bad) = false
+  /\ depreq_schema dr_ex_opts (get_cls dr_ex_univ 0) = [("p_discount", ["p_e_mail"; "p_name"])].
 Proof. vm_compute. repeat split. Qed.
